@@ -79,8 +79,10 @@ type event struct {
 }
 type evq []*event
 
-func (q evq) Len() int            { return len(q) }
-func (q evq) Less(i, j int) bool  { return q[i].at < q[j].at || (q[i].at == q[j].at && q[i].seq < q[j].seq) }
+func (q evq) Len() int { return len(q) }
+func (q evq) Less(i, j int) bool {
+	return q[i].at < q[j].at || (q[i].at == q[j].at && q[i].seq < q[j].seq)
+}
 func (q evq) Swap(i, j int)       { q[i], q[j] = q[j], q[i] }
 func (q *evq) Push(x interface{}) { *q = append(*q, x.(*event)) }
 func (q *evq) Pop() interface{} {
@@ -111,14 +113,16 @@ type net struct {
 	dropPct  int
 	dupPct   int
 	// adversary knowledge
-	votes    map[string]map[gpbft.ActorID][]byte // payload key -> signer -> sig
-	payloads map[string]gpbft.Payload
-	justs    []*gpbft.Justification
-	maxRound uint64
-	base     *gpbft.TipSet
-	inputs   []*gpbft.ECChain
-	alts     []*gpbft.ECChain
-	byzSlots map[string]bool
+	votes     map[string]map[gpbft.ActorID][]byte // payload key -> signer -> sig
+	payloads  map[string]gpbft.Payload
+	justs     []*gpbft.Justification
+	maxRound  uint64
+	base      *gpbft.TipSet
+	inputs    []*gpbft.ECChain
+	alts      []*gpbft.ECChain
+	byzSlots  map[string]bool
+	commitVal map[uint64]*gpbft.ECChain
+	script    bool // single-subject mode: rounds and values of the harness-made messages follow the subject
 }
 
 type node struct {
@@ -432,6 +436,17 @@ func (n *net) tryJust(p gpbft.Payload) *gpbft.Justification {
 }
 
 func (n *net) randomValue() *gpbft.ECChain {
+	if n.script && n.rng.Intn(12) == 0 {
+		return n.alts[len(n.alts)-1] // the foreign-base chain (late-binding rejection, also from the queue)
+	}
+	if n.script && n.rng.Intn(2) == 0 {
+		// few distinct values so that quorums form: whole forks and their short prefixes
+		c := n.alts[n.rng.Intn(len(n.alts))]
+		if n.rng.Intn(2) == 0 {
+			return c
+		}
+		return c.Prefix(n.rng.Intn(c.Len()))
+	}
 	switch n.rng.Intn(10) {
 	case 0:
 		return n.inputs[0].BaseChain()
@@ -451,6 +466,16 @@ func (n *net) byzAct() {
 	}
 	b := byz[n.rng.Intn(len(byz))]
 	round := n.maxRound
+	if n.script {
+		for _, x := range n.nodes {
+			if !x.faulty && x.p != nil {
+				round = x.p.Progress().Round
+			}
+		}
+		if n.rng.Intn(3) == 0 {
+			round += uint64(1 + n.rng.Intn(2))
+		}
+	}
 	if n.rng.Intn(4) == 0 && round > 0 {
 		round--
 	}
@@ -484,6 +509,16 @@ func (n *net) byzAct() {
 			if n.rng.Intn(2) == 0 {
 				p.Value = &gpbft.ECChain{}
 			} else {
+				if n.script {
+					// at most one non-bottom COMMIT value per round, as under any < 1/3 adversary: which of several
+					// the code adopts at the end of COMMIT is Go map order (ListAllValues), a documented choice point
+					if v0, ok := n.commitVal[round]; ok {
+						val = v0
+						p.Value = v0
+					} else {
+						n.commitVal[round] = val
+					}
+				}
 				just = n.tryJust(gpbft.Payload{Instance: 0, Round: round, Phase: gpbft.PREPARE_PHASE, SupplementalData: n.supp, Value: val})
 				if just == nil {
 					p.Value = &gpbft.ECChain{}
@@ -515,17 +550,28 @@ func (n *net) byzAct() {
 		if phase == gpbft.CONVERGE_PHASE {
 			mb.BeaconForTicket = n.beacon
 		}
-		msg, err := mb.Build(ctx, n.sig, b.id)
-		if err != nil {
-			continue
+		senders := []*node{b}
+		if n.script && n.rng.Intn(2) == 0 {
+			// a burst: the same vote from several members, so that weak and strong quorums form quickly
+			for _, x := range byz {
+				if x != b && n.rng.Intn(3) != 0 {
+					senders = append(senders, x)
+				}
+			}
 		}
-		n.observe(msg)
-		// selective delivery
-		for _, to := range n.nodes {
-			if to.faulty || n.rng.Intn(3) == 0 {
+		for _, sb := range senders {
+			msg, err := mb.Build(ctx, n.sig, sb.id)
+			if err != nil {
 				continue
 			}
-			n.push(&event{at: n.now + int64(n.rng.Intn(int(n.delayMax)+1)), to: to.idx, msg: msg})
+			n.observe(msg)
+			// selective delivery
+			for _, to := range n.nodes {
+				if to.faulty || n.rng.Intn(3) == 0 {
+					continue
+				}
+				n.push(&event{at: n.now + int64(n.rng.Intn(int(n.delayMax)+1)), to: to.idx, msg: msg})
+			}
 		}
 	}
 	// replay an old observed justification inside a fresh COMMIT-bottom style message is covered above;
@@ -536,7 +582,7 @@ func (n *net) byzAct() {
 
 func runOnce(out *vh.Out, rng *vh.Rng, runNo int, mode string) {
 	n := &net{rng: rng, out: out, sig: signing.NewFakeBackend(), votes: map[string]map[gpbft.ActorID][]byte{},
-		payloads: map[string]gpbft.Payload{}, byzSlots: map[string]bool{}}
+		payloads: map[string]gpbft.Payload{}, byzSlots: map[string]bool{}, commitVal: map[uint64]*gpbft.ECChain{}}
 	n.u = &universe{tips: map[string]int{}, byID: map[int]*gpbft.TipSet{}}
 	N := 3 + rng.Intn(5)
 	if mode == "sync" {
@@ -616,6 +662,20 @@ func runOnce(out *vh.Out, rng *vh.Rng, runNo int, mode string) {
 		}
 	}
 
+	if mode == "script" {
+		// single subject: every other member is driven by the harness (which holds all keys), so any
+		// sequence of *validated* messages can reach the subject — also ones no < 1/3 adversary could
+		// produce. Only the per-participant properties (C03, C07) and the model correspondence are judged.
+		subject := rng.Intn(N)
+		for i := 0; i < N; i++ {
+			if i != subject {
+				faulty[i] = true
+			} else {
+				delete(faulty, i)
+			}
+		}
+	}
+
 	// chains: a tree over a common base
 	baseEpoch := int64(10 + rng.Intn(100))
 	n.base = n.u.tip(baseEpoch, 0)
@@ -686,6 +746,10 @@ func runOnce(out *vh.Out, rng *vh.Rng, runNo int, mode string) {
 	} else {
 		n.gst = int64(time.Duration(rng.Intn(40)) * delta)
 	}
+	if mode == "script" {
+		n.gst = math.MaxInt64 / 2
+		n.script = true
+	}
 
 	out.Line("run %d mode=%s N=%d style=%d unanimous=%v", runNo, mode, N, style, unanimous)
 	var tb []string
@@ -753,7 +817,9 @@ func runOnce(out *vh.Out, rng *vh.Rng, runNo int, mode string) {
 	if vh.Thorough() {
 		maxEvents = 20000
 	}
-	if mode != "byz" {
+	if mode == "script" {
+		maxEvents = 1500
+	} else if mode != "byz" {
 		maxEvents *= 20 // liveness runs are only cut by the time deadline or the round bound
 	}
 	capped := 1
@@ -790,6 +856,10 @@ func runOnce(out *vh.Out, rng *vh.Rng, runNo int, mode string) {
 		}
 		if gstRound >= 0 && int64(n.maxRound) > gstRound+45 {
 			capped = 0 // ran past the round bound: report as is
+			break
+		}
+		if n.script && n.maxRound > 30 {
+			capped = 0
 			break
 		}
 		if an != nil && an.alarm <= evAt {
@@ -894,6 +964,8 @@ func main() {
 			mode = "sync"
 		} else if r%5 == 2 {
 			mode = "live"
+		} else if r%5 == 3 {
+			mode = "script"
 		}
 		runOnce(out, rng.Fork(uint64(r)), r, mode)
 	}
